@@ -69,22 +69,35 @@ fn collect_capture() {
 }
 
 pub const LEN_MAX: u32 = 4;
+pub const SYM: u32 = 0xffff_ffff;
 
 /// TRAPA #0 with ER0 = 104: exactly the `length` bytes at `buffer` reach the message layer once, in
 /// order; registers, SP, CCR and memory unchanged; PC = next instruction.
-pub fn sys_write<S: Src>(s: &mut S) {
+/// The length is a call-site constant (one harness per length): the copy loop and the UTF-8 validation
+/// then unwind exactly, which is 5-10x cheaper than a symbolic length under a global unwind bound and
+/// stays within memory when the loop is restructured (seeded change C14-overread).
+pub fn sys_write<S: Src>(s: &mut S, len_c: u32, arg_c: u32) {
     let mut c: Ctx = ih::begin(s, PC_RAM);
     let fd = s.u32();
     let buf = s.u32();
-    let len = s.u32();
-    let data = [s.u8(), s.u8(), s.u8(), s.u8()];
+    let len_s = s.u32();
+    let arg_s = s.u32();
+    // SYM = symbolic (length 0..=LEN_MAX / argument block anywhere); otherwise a call-site constant
+    let len = if len_c == SYM { len_s } else { len_c };
+    s.assume(len <= if len_c == SYM { LEN_MAX } else { len_c });
+    let cap: usize = if len_c == SYM { LEN_MAX as usize } else { len_c as usize };
+    let data = [s.u8(), s.u8(), s.u8(), s.u8(), s.u8(), s.u8(), s.u8(), s.u8()];
     s.assume(c.code[0] == 0x57 && c.code[1] == 0x00);
     c.cpu.er[0] = 104;
+    // the argument block address is a call-site constant too (on-chip RAM or DRAM): only then does the
+    // emulator's read of `length` fold to the constant (a symbolic window index does not), so that the
+    // loops unwind exactly; the buffer address and all contents stay symbolic
+    c.cpu.er[1] = if arg_c == SYM { arg_s } else { arg_c };
     let arg = c.cpu.er[1];
     s.assume(arg <= 0xffffff && arg & 1 == 0 && mem::plain_mem(arg) && mem::plain_mem(arg + 11) && c.code_disjoint(arg, 12));
-    s.assume(len <= LEN_MAX && buf <= 0xffffff);
+    s.assume(buf <= 0xffffff);
     s.assume(len == 0 || (mem::plain_mem(buf) && mem::plain_mem(buf + len - 1) && mem::disjoint(buf, len, arg, 12) && c.code_disjoint(buf, len)));
-    s.assume(rm::valid_utf8_4(&data, len as usize));
+    s.assume(rm::valid_utf8(&data, len as usize));
     // the 12-byte argument block as three 4-byte windows (keeps every harness loop <= 8 iterations)
     let w_fd = fd.to_be_bytes();
     let w_buf = buf.to_be_bytes();
@@ -106,7 +119,7 @@ pub fn sys_write<S: Src>(s: &mut S) {
     let (cnt, olen) = unsafe { (OUT_COUNT, OUT_LEN) };
     let mut ok_text = cnt == 1 && olen == len as usize;
     i = 0;
-    while i < 4 {
+    while i < cap && i < 8 {
         if (i as u32) < len {
             if mem::win_byte(&c.cpu, 1, i) != data[i] {
                 a.mem = false;
@@ -118,10 +131,12 @@ pub fn sys_write<S: Src>(s: &mut S) {
         i += 1;
     }
     let ok = r.is_ok();
-    witness!(ok && len == 4 && data[0] == 0xf0, "four-byte UTF-8 character written");
-    witness!(ok && len == 3 && data[0] == b'\\' && data[1] == b'\n' && data[2] == 0, "backslash, newline, NUL written");
-    witness!(ok && len == 0, "zero-length write");
-    witness!(ok && buf >= 0x400000 && buf < 0x600000 && arg >= 0xffbf20 && len == 2, "buffer in DRAM, argument block in on-chip RAM");
+    witness!(when: cap >= 4, ok && len >= 4 && data[0] == 0xf0, "four-byte UTF-8 character written");
+    witness!(when: cap >= 3, ok && len == 3 && data[0] == b'\\' && data[1] == b'\n' && data[2] == 0, "backslash, newline, NUL written");
+    witness!(when: len_c == SYM, ok && len == 0, "zero-length write");
+    witness!(ok && buf >= 0x400000 && buf < 0x600000, "buffer in DRAM");
+    witness!(when: cap >= 1, ok && len >= 1 && buf >= 0xffbf20, "buffer in on-chip RAM");
+    witness!(when: cap >= 1, ok && len >= 1 && buf + len == 0x600000, "buffer ends at the last byte of DRAM");
     std::mem::forget(c);
     verdict!("outcome" => a.outcome, "regs" => a.regs, "ccr" => a.ccr, "pc" => a.pc, "mem" => a.mem, "text" => ok_text);
 }
